@@ -28,6 +28,63 @@ CLAIMED = {
         note="Trusted: the opcode table transcription, TLC, the event logger in vf/props/c02.py. Non-ODEX only. First units with a non-zero 00 byte / argument count > 5 may be emitted or rejected.",
         technique="TLA+ transition-system spec model-checked with TLC (safety + liveness); final states replayed into the code; execution traces validated by a TLA+ trace spec",
         ref="4/C02"),
+    "C04": dict(
+        spec=["EncodedValue", "EncodedValueMC", "EncodedValue_Trace"],
+        text="EncodedValue.tla defines the value of an encoded_value from its type and its value_arg+1 little-endian bytes (sign extension for BYTE/SHORT/INT/LONG, "
+             "zero extension for CHAR and pool indices, BOOLEAN in value_arg); TLC checks range/sign invariants on every integer type x legal width x boundary "
+             "byte patterns; every enumerated case is placed in generated DEX files both as a static-field initialiser and as an annotation element and compared with "
+             "EncodedField.get_init_value().get_value(), the annotation element value and the initialiser printed by the decompiler (DvClass.get_source); "
+             "random nested arrays/annotations/references/booleans/nulls are validated leaf by leaf by EncodedValue_Trace.",
+        note="Trusted: the independent DEX writer vf/dexgen.py, TLC, the leaf flattening of the harness. FLOAT/DOUBLE are outside the statement.",
+        technique="TLA+ definitions model-checked with TLC; enumerated cases replayed through generated DEX files; parsed leaves validated by a TLA+ trace spec",
+        ref="4/C04"),
+    "C05": dict(
+        spec=["DexModel", "DexModelMC", "DexModel_Trace"],
+        text="DexModel.tla computes what a DEX file declares from an abstract class model: sorted field/method id tables (defined and merely referenced members), "
+             "class_data member lists with their index differences, the running-sum decoder (shaped like _load_elements), and the expected result of every lookup helper. "
+             "TLC checks layout invariants (sortedness, first diff >= 0, later diffs > 0, decode = ids) and lookup consistency on every member set within the bounds; "
+             "sampled (thorough: all of a medium instance) states are realised by the independent writer, cross-checked with the spec's layout, parsed by DEX and compared "
+             "(classes, super, interfaces, flags, source, fields, methods, code presence, register counts, code bytes, idx diffs, 7 lookup helpers); random models with up to 40 "
+             "classes are validated by DexModel_Trace (reported sets and lookups recomputed by the spec).",
+        note="Trusted: vf/dexgen.py (its id tables are cross-checked against the spec's), TLC, the projection. Generated files are well formed.",
+        technique="TLA+ model of the declared structure checked with TLC; states replayed as generated DEX files; parser reports validated by a TLA+ trace spec",
+        ref="4/C05"),
+    "C06": dict(
+        spec=["Mutf8", "Mutf8MC", "Mutf8_Trace"],
+        text="Mutf8.tla defines MUTF-8 encoding/decoding per code unit; Mutf8MC checks Dec(Enc(s)) = s, absence of NUL bytes, a byte-wise decoder machine, and the 128-byte chunked "
+             "NUL scan (read_null_terminated_string) as a transition system with exact length/cursor and termination; enumerated strings are placed in generated DEX files "
+             "(pool, field names, const-string) and compared through get_strings / ClassManager.get_string / get_raw_string / utf16_size; every scan state is replayed into "
+             "the real function; random strings over the full code-point range (lone surrogates, non-BMP, U+0000) are validated by Mutf8_Trace.",
+        note="Trusted: vf/dexgen.py's MUTF-8 encoder (checked equal to the spec's Enc on the enumerated strings), TLC. The EOF-without-NUL case belongs to C35.",
+        technique="TLA+ codec + scan state machine model-checked with TLC; states replayed into the code; decoded strings validated by a TLA+ trace spec",
+        ref="4/C06"),
+    "C07": dict(
+        spec=["MapLoad", "MapLoad_Trace"],
+        text="MapLoad.tla is the map-list scheduler (stable sort by load rank, parse one entry at a time, consults of other tables) as a transition system. The harness injects the "
+             "implementation's own determine_load_order() and the consult relation observed on the running parser, and TLC checks, for all 7! permutations of a generated file's "
+             "entries, ConsultOnlyLoaded, SameSequence, RankInjective and termination. Every permutation is also parsed end to end (result must equal the unpermuted parse); "
+             "rotations, swaps, reversal and random permutations of rich generated and shipped files are parsed with MapItem.parse / add_type_item / the ClassManager tables "
+             "instrumented from the harness, and the begin/parse/consult/loaded/end traces are validated by MapLoad_Trace.",
+        note="Trusted: the harness-side instrumentation (LogDict), the projection used for 'same parse', TLC.",
+        technique="TLA+ scheduler spec instantiated with the implementation's constants and model-checked with TLC; permuted files parsed; parser traces validated by a TLA+ trace spec",
+        ref="4/C07"),
+    "C08": dict(
+        spec=["TryTable", "TryTableMC", "TryTable_Trace"],
+        text="TryTable.tla defines the layout of try_items and the encoded_catch_handler_list (sleb size, uleb pairs, byte offsets, padding for odd instruction counts) and the "
+             "exception table to be reported; TLC checks alignment/offset/shape invariants on all tables with 1-2 (3) tries x 1-2 handler lists x typed/catch-all variants x odd/even "
+             "code sizes; sampled states are realised in generated DEX files and compared with determineException, get_tries and get_handlers; random larger tables are validated by TryTable_Trace.",
+        note="Trusted: vf/dexgen.py, TLC. Order between ranges is not part of the property (bag comparison).",
+        technique="TLA+ layout/report definitions model-checked with TLC; states replayed as generated code items; reports validated by a TLA+ trace spec",
+        ref="4/C08"),
+    "C09": dict(
+        spec=["DexHeader", "DexHeaderMC", "DexHeader_Trace"],
+        text="DexHeader.tla gives the verdict for every combination of corruption classes (length, endian tag, magic shape, checksum, header size) and defines Adler-32; TLC checks the "
+             "single-byte lemma (any one-byte change changes the checksum) on all short buffers and that only clean headers are accepted; each class vector is realised on generated files "
+             "and DEX(...) must raise before MapList is entered; every offset >= 12 of three generated files is changed (5 alternatives, thorough: all 255) and random magic/endian/"
+             "header-size values are tried; all constructor outcomes are validated by DexHeader_Trace.",
+        note="Trusted: zlib.adler32 equals the spec's Adler (checked on the enumerated buffers), the MapList.__init__ wrapper as 'before any structure is parsed'. Version digits are not part of the magic shape.",
+        technique="TLA+ decision procedure + Adler-32 lemma model-checked with TLC; corruption classes and byte sweeps replayed into the constructor; outcomes validated by a TLA+ trace spec",
+        ref="4/C09"),
     "C03": dict(
         spec=["Leb", "LebReader", "LebExpect", "Leb_Trace"],
         text="TLC checks on the bounded LebReader model (all byte sequences of length 1-2 over a byte alphabet, boundary bytes for lengths 3-5, "
